@@ -48,6 +48,11 @@ def main(argv=None):
     if args.replay:
         with open(args.replay) as f:
             rec = json.load(f)
+        flags = (rec.get('case') or {}).get('python_flags') \
+            if isinstance(rec.get('case'), dict) else None
+        if flags and '-O' in flags and not sys.flags.optimize:
+            os.execve(sys.executable, [sys.executable, '-O', '-m', 'vcheck'] +
+                      sys.argv[1:], dict(os.environ))
         try:
             mod.replay(rec)
         except core.Violation as v:
@@ -109,8 +114,21 @@ def main(argv=None):
         # 2. generated search
         tasks = mod.tasks(tier, seed)
         if args.only:
-            pre = tuple(args.only.split(','))
-            tasks = [t for t in tasks if t.sub.startswith(pre)]
+            # comma list of sub-check name prefixes; 'name#N' keeps only
+            # the first N tasks with that prefix
+            keep = []
+            for spec in args.only.split(','):
+                pre, _, lim = spec.partition('#')
+                hit = [t for t in tasks if t.sub.startswith(pre)
+                       and t not in keep]
+                keep.extend(hit[:int(lim)] if lim else hit)
+            tasks = [t for t in tasks if t in keep]
+        elif getattr(mod, 'OPT_SUBS', None) and \
+                not os.environ.get('VERIF_CHILD'):
+            # ambient interpreter configuration: the cheap deterministic
+            # sub-checks once more under `python -O`
+            tasks.insert(0, core.Task('python-O', core.optimized_child,
+                                      prop=prop, subs=list(mod.OPT_SUBS)))
         col, timings = core.run_tasks(tasks, budget_s=budget)
         for rec in col.failures:
             classify(rec)
